@@ -22,6 +22,8 @@ def model_task(task, ybin, root):
 
 
 def replay_doc(doc, ybin, root):
+    if doc.get("kind") == "watch":
+        return RT.replay_watch(doc)
     pkg = sw.unpack_pkg(doc["pkg"])
     pipeline = doc["pipeline"]
     want_cpp = "cpp." in pipeline
@@ -67,7 +69,7 @@ def main():
                assumptions=["reference codec per docs/reference with one declared deviation: int8/uint8 as one raw byte (probed and reported by C01)",
                             "NDJSON carries finite floats only"],
                replay_fn=replay_doc, quick_budget=170,
-               fault_keys=("short_read_delivery", "stream_gt_64k", "stream_gt_1m", "stream_ends_on_a_staging_buffer_boundary", "all_streams_empty", "write_error_injected", "cpp_write_error_injected"))
+               fault_keys=("watch_sessions", "short_read_delivery", "stream_gt_64k", "stream_gt_1m", "stream_ends_on_a_staging_buffer_boundary", "all_streams_empty", "write_error_injected", "cpp_write_error_injected"))
 
 
 if __name__ == "__main__":
